@@ -46,6 +46,32 @@ fn pick(v: &'static [&'static str]) -> BoxedStrategy<String> {
     (0..v.len()).prop_map(move |i| v[i].to_string()).boxed()
 }
 
+/// A proper prefix or suffix of a keyword (`NO`, `TH`, `HEN`, `OSUB`, ...), in
+/// upper, lower or mixed case: the identifier scanner's keyword look-ahead and the
+/// keyword matchers meet exactly at such fragments.
+fn keyword_fragment() -> impl Strategy<Value = String> {
+    use crate::textgen::KEYWORDS;
+    (0..KEYWORDS.len(), any::<u16>(), any::<bool>(), 0u8..3, any::<u16>()).prop_map(|(k, cut, prefix, case, mask)| {
+        let kw = KEYWORDS[k];
+        let c = 1 + idx(cut, kw.len() - 1);
+        let frag = if prefix { &kw[..c] } else { &kw[c..] };
+        frag.chars()
+            .enumerate()
+            .map(|(i, ch)| match case {
+                0 => ch,
+                1 => ch.to_ascii_lowercase(),
+                _ => {
+                    if mask >> (i % 16) & 1 == 1 {
+                        ch.to_ascii_lowercase()
+                    } else {
+                        ch
+                    }
+                }
+            })
+            .collect()
+    })
+}
+
 fn free_atom() -> impl Strategy<Value = Vec<Seg>> {
     prop_oneof![
         6 => pick(KEYWORDS_FREE),
@@ -57,6 +83,10 @@ fn free_atom() -> impl Strategy<Value = Vec<Seg>> {
         // shapes of exponents, hex-like numerals, suffixes: `2E3`, `5e-3`, `1D+2`)
         3 => "[A-Za-z]{1,3}[0-9]?\\$?",
         3 => "[0-9.]{1,3}[A-Za-z]{1,2}[+-]?[0-9]{1,2}",
+        // keyword fragments alone, glued to a following keyword, glued behind a letter
+        2 => keyword_fragment(),
+        3 => (keyword_fragment(), pick(KEYWORDS_FREE)).prop_map(|(f, k)| format!("{}{}", f, k)),
+        1 => ("[A-Za-z]", keyword_fragment(), pick(KEYWORDS_FREE)).prop_map(|(a, f, k)| format!("{}{}{}", a, f, k)),
     ]
     .prop_map(|s| vec![Seg::Free(s)])
 }
@@ -419,7 +449,7 @@ pub fn property() -> Property {
     let families: Vec<Box<dyn Family>> = vec![prop_family("segment-lines", 150_000, 2_000_000, |_| seg_line(), check)];
     Property {
         id: "C12",
-        rule: "Lines are built from segments tagged by construction as free (keywords, identifiers over the full alphabet incl. SCORE/TOTAL/FORK/NOTE/XTHEN and random 1-3 letter names, numerals incl. .5 / 007 / '1 2', tight digit-letter-sign-digit runs such as 2E3 / 5e-3 / 1.d+2, one- and two-character operators incl. spaced ones, punctuation, quotes, blanks), protected (string interiors, REM tails, unterminated-string rests) or DATA items (quoted / bare / numeric). Per base line the check applies: all blanks removed; a blank / tab / three blanks at every free gap; each gap individually; all 2^k gap subsets when k <= 8 (random subsets otherwise); all-lower, all-upper, each single letter flipped, random flips. Oracle: the token sequence (or, for untokenizable bases, the error kind and the tokens before it) through the tokenizer hook is identical for every variant, and LIST of `10 <variant>` equals LIST of `10 <base>`. Each variant is one evaluation. Non-trivial: base with >= 4 tokens containing a keyword-bearing identifier, two-character operator, spaced numeral or DATA, and at least one variant whose bytes differ; distinct by base text. Lines whose free text accidentally spells REM or DATA are excluded (counted).",
+        rule: "Lines are built from segments tagged by construction as free (keywords, identifiers over the full alphabet incl. SCORE/TOTAL/FORK/NOTE/XTHEN and random 1-3 letter names, numerals incl. .5 / 007 / '1 2', tight digit-letter-sign-digit runs such as 2E3 / 5e-3 / 1.d+2, proper prefixes and suffixes of keywords in any case glued to a following keyword (NOTHEN, noThen, xTOgoto), one- and two-character operators incl. spaced ones, punctuation, quotes, blanks), protected (string interiors, REM tails, unterminated-string rests) or DATA items (quoted / bare / numeric). Per base line the check applies: all blanks removed; a blank / tab / three blanks at every free gap; each gap individually; all 2^k gap subsets when k <= 8 (random subsets otherwise); all-lower, all-upper, each single letter flipped, random flips. Oracle: the token sequence (or, for untokenizable bases, the error kind and the tokens before it) through the tokenizer hook is identical for every variant, and LIST of `10 <variant>` equals LIST of `10 <base>`. Each variant is one evaluation. Non-trivial: base with >= 4 tokens containing a keyword-bearing identifier, two-character operator, spaced numeral or DATA, and at least one variant whose bytes differ; distinct by base text. Lines whose free text accidentally spells REM or DATA are excluded (counted).",
         assumptions: vec!["the protected map comes from the generator's construction, not from the tokenizer; the exclusion rule guards the one way it could be wrong"],
         fuzz: Some(FuzzSpec { target: "c12_perturb", runs: 300_000, max_len: 96, verdict: crate::fuzz::c12_verdict }),
         families,
